@@ -194,7 +194,28 @@ impl CorruptSpec {
                 if streams.iter().any(|s| s.name == name) {
                     return false;
                 }
-                streams.push(RawStream { name, data: vec![7u8; (rng.below(40) as usize) * 3] });
+                streams.push(RawStream { name: name.clone(), data: vec![7u8; (rng.below(40) as usize) * 3] });
+                if kind % 16 >= 8 && name == "plainASCIIname" {
+                    // ... whose directory entry then loses its name (length = the terminator only)
+                    let img = match codec::build_container(&clsid, &streams) {
+                        Ok(i) => i,
+                        Err(_) => return false,
+                    };
+                    let pat: Vec<u8> = name.encode_utf16().flat_map(|u| u.to_le_bytes()).collect();
+                    let mut img = img;
+                    if let Some(at) = img.windows(pat.len()).position(|w| w == &pat[..]) {
+                        if at + 66 <= img.len() {
+                            for b in img[at..at + pat.len()].iter_mut() {
+                                *b = 0;
+                            }
+                            let l: u16 = if kind % 32 >= 16 { 0 } else { 2 };
+                            img[at + 64..at + 66].copy_from_slice(&l.to_le_bytes());
+                            *image = img;
+                            return true;
+                        }
+                    }
+                    return false;
+                }
             }
             CorruptSpec::DataHighBit(sel) => {
                 let i = match find(&streams, &data_name) {
@@ -226,11 +247,54 @@ impl CorruptSpec {
                 if tables.is_empty() {
                     return false;
                 }
+                if kind % 10 >= 8 {
+                    // a row of _Columns now says that a catalog table has one more column
+                    // (8: _Validation gets number 11; 9: _Tables gets number 2)
+                    let dec = match codec::decode(image) {
+                        Ok(d) => d,
+                        Err(_) => return false,
+                    };
+                    let (victim, number) = if kind % 10 == 8 { ("_Validation", 11u16) } else { ("_Tables", 2u16) };
+                    let idx = match dec.pool.iter().position(|e| e.bytes == victim.as_bytes() && e.refcount > 0) {
+                        Some(i) => i as u32 + 1,
+                        None => return false,
+                    };
+                    let cname = names::pack("_Columns", true);
+                    let ci = match find(&streams, &cname) {
+                        Some(i) => i,
+                        None => return false,
+                    };
+                    let rw = if dec.long_refs { 3 } else { 2 };
+                    let row_bytes = rw + 2 + rw + 2;
+                    let d = &mut streams[ci].data;
+                    let n = d.len() / row_bytes;
+                    if n == 0 {
+                        return false;
+                    }
+                    let r = *csel as usize % n;
+                    // column-major: Table refs, then Numbers, then Name refs, then Types
+                    let t_at = r * rw;
+                    d[t_at] = idx as u8;
+                    d[t_at + 1] = (idx >> 8) as u8;
+                    if rw == 3 {
+                        d[t_at + 2] = (idx >> 16) as u8;
+                    }
+                    let n_at = n * rw + r * 2;
+                    let v = 0x8000u16 + number;
+                    d[n_at..n_at + 2].copy_from_slice(&v.to_le_bytes());
+                    return match codec::build_container(&clsid, &streams) {
+                        Ok(img) => {
+                            *image = img;
+                            true
+                        }
+                        Err(_) => false,
+                    };
+                }
                 let pool_entries = find(&streams, &pool_name).map(|i| streams[i].data.len() / 4).unwrap_or(1) as u16;
                 let s = &mut streams[tables[*tsel as usize % tables.len()]];
                 let cells = s.data.len() / 2;
                 let c = (*csel as usize % cells) * 2;
-                let v: u16 = match kind % 8 {
+                let v: u16 = match kind % 10 {
                     0 => 0,
                     1 => 0xffff,
                     2 => pool_entries,
